@@ -160,7 +160,14 @@ func (p *Program) verifyUnit(ct *Contract, subst map[string]int64, suffix string
 	u = &Unit{Name: ct.Pkg + "." + ct.Key, Ct: ct, Ctx: newCtx(), Suffix: suffix}
 	c := u.Ctx
 	c.preamble = append(c.preamble, p.specLib)
+	hidden := map[string]bool{}
+	for _, h := range ct.Hide {
+		hidden[h] = true
+	}
 	c.groundFn = func(key string) (interface{}, bool) {
+		if hp := strings.SplitN(key[2:], ".", 3); len(hp) >= 2 && hidden[hp[0]+"."+hp[1]] {
+			return nil, false
+		}
 		d, ok := p.groundLeaf(key)
 		if ok {
 			parts := strings.SplitN(key[2:], ".", 3)
@@ -284,6 +291,8 @@ func (p *Program) verifyUnit(ct *Contract, subst map[string]int64, suffix string
 				label = fmt.Sprintf("%d", i)
 			}
 			e.oblige("ensures", label, r.Cond, g, r.Pos)
+			// later clauses may rely on earlier ones (each is proved before it is used)
+			c.assume(c.implies(r.Cond, g), "earlier ensures")
 		}
 		if !ct.NoFrame {
 			p.frameCheck(e, ct, fn, env0, entry, r)
@@ -489,6 +498,7 @@ func (p *Program) verifyLemma(e *Exec, ct *Contract, u *Unit) {
 			label = fmt.Sprintf("%d", i)
 		}
 		e.oblige("ensures", label, reach, g, token.NoPos)
+		c.assume(c.implies(reach, g), "earlier ensures")
 	}
 	c.oblige(&Oblig{Name: u.Name + "#vacuity:end-reachable", Kind: "vacuity", Fn: u.Name, Goal: c.not(reach), Props: ct.Props, Expect: "sat"})
 }
